@@ -372,3 +372,18 @@ func order(a, b *Term) []*Term {
 	}
 	return []*Term{a, b}
 }
+
+// liftIteConst pushes an operation with a constant operand into an ite whose
+// branches are constants: op(ite(c,K1,K2), K) = ite(c, op(K1,K), op(K2,K)).
+func (s *Store) liftIteConst(a, b *Term, op func(x, y *Term) *Term) *Term {
+	isIteConst := func(t *Term) bool {
+		return t.Op == OpIte && t.W > 0 && t.Args[1].IsConst() && t.Args[2].IsConst()
+	}
+	switch {
+	case isIteConst(a) && b.IsConst():
+		return s.Ite(a.Args[0], op(a.Args[1], b), op(a.Args[2], b))
+	case isIteConst(b) && a.IsConst():
+		return s.Ite(b.Args[0], op(a, b.Args[1]), op(a, b.Args[2]))
+	}
+	return nil
+}
